@@ -48,3 +48,21 @@ Definition reload_skips_static (f : fn_def) : bool :=
 
 Lemma reload_leaves_static_entries_alone : reload_skips_static AnyCache_reload_untyped = true.
 Proof. vm_compute. reflexivity. Qed.
+
+(* reload_untyped hands the newly recorded dependencies back ONLY after a successful reload (and
+   after the write); a failed reload yields None, so the graph keeps the old dependencies *)
+Definition reload_result_wf (f : fn_def) : bool :=
+  match last (fn_body f) (EOther "") with
+  | EMatch (EPath ["entry"])
+      [(PTupleStruct ["Ok"] [PIdent e None], None, EBlock okb);
+       (PTupleStruct ["Err"] [PIdent _ None], None, EBlock errb)] =>
+      match find_index (calls_method "write") okb, last okb (EOther ""), last errb (EOther "") with
+      | Some _, ECall (EPath ["Some"]) [EPath ["deps"]], EPath ["None"] =>
+          negb (existsb (calls_method "write") errb)
+      | _, _, _ => false
+      end
+  | _ => false
+  end.
+
+Lemma reload_keeps_old_dependencies_on_failure : reload_result_wf AnyCache_reload_untyped = true.
+Proof. vm_compute. reflexivity. Qed.
